@@ -1,8 +1,11 @@
 """C26 -- time-triggered <-> STN plan conversions are faithful.
 
 Phase 1  TGen (temporal) and Gen (instantaneous) problems, loosened so that enough plans are valid;
-         candidate time-triggered plans on a coarse rational grid (gen.random_tt_plan plus an
-         overlap-biased variant).  The library's validator is used ONLY to prioritise candidates
+         a third of the temporal and half of the instantaneous problems get a timed goal over a
+         non-degenerate window on a literal that one of their actions writes (window_goal);
+         candidate time-triggered plans on a coarse rational grid (gen.random_tt_plan, an
+         overlap-biased variant and a variant whose steps start / end around the absolute times of
+         the problem: ends of timed-goal windows, timed effects).  The library's validator is used ONLY to prioritise candidates
          (mostly plans it accepts, plus some it rejects); spec/PlanConvSTN.tla (MODE=P1) decides which
          candidates are VALID by UPTimeSem!TimeVerdict.
 Phase 2  real code: plan.convert_to(STN_PLAN), is_consistent(), get_constraints() projected to JSON
@@ -249,7 +252,7 @@ def probes(rng, variants):
         out.append(base("timed-goal", [pf, df], [
             _dur("w", dw, dw, [{"t": tw, "e": _eff("assign", "p", C(BV(True)))}]),
             _dur("x", num(1), num(2), [{"t": tx, "e": _eff("assign", "p", C(BV(False)))}])],
-            timed_goals=[{"iv": _iv(T("gstart", 2), T("gstart", rng.choice([2, 3]))), "g": _fx("p")}]))
+            timed_goals=[{"iv": _iv(T("gstart", 2), T("gstart", rng.choice([2, Fraction(5, 2), 3]))), "g": _fx("p")}]))
         out.append(base("timed-effect", [pt, df], [
             _dur("w", dw, dw, [{"t": tw, "e": _eff("assign", "p", C(BV(True)))}]),
             _dur("x", num(1), num(2), [{"t": tx, "e": done}], [{"iv": _iv(T("start"), T("start")), "c": _fx("p")}])],
@@ -499,12 +502,22 @@ def run(ctx):
     ctx.cov["distinct_nontrivial"] = sum(1 for r in main for pl in r["plans"] if nontrivial(pl))
     ctx.cov["plans_by_steps"] = {str(k): sum(1 for r in main for pl in r["plans"] if len(pl["steps"]) == k) for k in range(1, maxlen + 1)}
     ctx.cov["plans_with_timed_effects_or_goals"] = sum(len(r["plans"]) for r in main if r["P"]["timed_effects"] or r["P"]["timed_goals"])
+
+    def after_window(r, pl):
+        # some step ends after the end of a non-degenerate timed-goal window
+        his = [timeobs.frac(tg["iv"]["hi"]["delay"]) for tg in r["P"]["timed_goals"] if tg["iv"]["lo"]["delay"] != tg["iv"]["hi"]["delay"]]
+        return bool(his) and any(timeobs.frac(s["t"]) + timeobs.frac(s["d"]) > min(his) for s in pl["steps"])
+
+    ctx.cov["plans_with_window_timed_goal"] = sum(len(r["plans"]) for r in main if any(tg["iv"]["lo"]["delay"] != tg["iv"]["hi"]["delay"] for tg in r["P"]["timed_goals"]))
+    ctx.cov["plans_with_step_after_timed_goal_window"] = sum(1 for r in main for pl in r["plans"] if after_window(r, pl))
     ctx.cov["plans_with_coinciding_starts"] = sum(1 for r in main for pl in r["plans"] if len({repr(s["t"]) for s in pl["steps"]}) < len(pl["steps"]))
     ctx.cov["problems_judged"] = len(main)
     ctx.cov["problems_skipped"] = skipped
     ctx.cov["rule"] = (
-        "%d TGen temporal + %d Gen instantaneous problems (goals/conditions randomly dropped); up to %d candidate plans each "
-        "(<= %d steps, starts and durations on a grid of halves, overlap-biased), the library validator only prioritises "
+        "%d TGen temporal + %d Gen instantaneous problems (goals/conditions randomly dropped; 1/3 resp. 1/2 of them with an added "
+        "timed goal over a window [a, b], a < b, on a literal written by an action); up to %d candidate plans each "
+        "(<= %d steps, starts and durations on a grid of halves, overlap-biased, or placed around the ends of the timed-goal "
+        "windows / timed effects), the library validator only prioritises "
         "candidates; TLC keeps the plans that are VALID by UPTimeSem!TimeVerdict; one evaluation = one VALID plan converted "
         "TT -> STN -> TT by the real code and judged by PlanConvSTN; non-trivial = the STN orders events of two different "
         "action instances." % (n_t, n_i, ncand, maxlen)
